@@ -113,6 +113,8 @@ def write_pcapng(path, items, *, endian="<", tsresol=6, tsoffset=0, snaplen=0, o
             units = int(sec * per_s)
             body = struct.pack(e + "IIIII", 0, units >> 32, units & 0xFFFFFFFF, len(frame), len(frame)) + frame
             out += pcapng_block(6, body, e)
+        elif it[0] == "spb":        # Simple Packet Block: original length + data, no interface id, no timestamp
+            out += pcapng_block(3, struct.pack(e + "I", len(it[1])) + it[1], e)
         elif it[0] == "dsb":
             body = struct.pack(e + "II", 0x544C534B, len(it[1])) + it[1]
             out += pcapng_block(10, body, e)
